@@ -75,6 +75,62 @@ def check_avp(acc, spec, path="avp"):
     return obj
 
 
+def mutate_and_check(acc, g, spec, obj):
+    """Content changed through the public setters after construction must serialise as the new content."""
+    r = g.rng
+    name = spec.cls.__name__ if spec.cls else "DiameterAVP"
+    l = R.LAvp.from_json(spec.lavp.to_json())
+    kind = g.rd["avps"][name]["type"] if spec.cls else "generic"
+    ops = ["m-bit", "p-bit"]
+    if kind in ("OctetString", "UTF8String", "DiameterIdentity", "generic") and name not in ("MsisdnAVP", "StnSrAVP"):
+        ops.append("data")
+    if kind == "generic":
+        ops += ["code", "flags"]
+    if kind == "Grouped" and isinstance(l.value, list) and spec.members is not None and len(l.value) > len(g.rd["avps"][name]["mandatory"]):
+        ops.append("pop-member")
+    op = r.choice(ops)
+    try:
+        if op == "m-bit":
+            obj.set_mandatory_bit(not obj.is_mandatory())
+            l.flags ^= 0x40
+        elif op == "p-bit":
+            obj.set_protected_bit(not obj.is_protected())
+            l.flags ^= 0x20
+        elif op == "data":
+            new = g.octets(residue=r.randrange(4))
+            obj.data = new
+            l.value = new
+        elif op == "code":
+            c = r.randrange(1, 2 ** 32)
+            obj.code = c
+            l.code = c
+        elif op == "flags":
+            f = (r.randrange(256) & 0x7f) | (l.flags & 0x80)
+            obj.flags = f
+            l.flags = f
+        elif op == "pop-member":
+            # remove the member that was appended last (never a mandatory one: those come first in the constructor list)
+            names = [k for k in obj.__dict__ if "_avp" in k and k != "_avps"]
+            last = obj.avps[-1]
+            key = [k for k in names if obj.__dict__[k] is last]
+            mand_codes = {g.rd["avps"][m]["code"] for m in g.rd["avps"][name]["mandatory"].values()}
+            if not key or last.get_code() in mand_codes:
+                return
+            obj.pop(key[0])
+            l.value = l.value[:-1]
+    except BaseException as ex:
+        acc.observe("setter-rejected:%s:%s:%s" % (kind, op, type(ex).__name__))
+        return
+    acc.counters["post_construction_mutations"] += 1
+    want = R.encode_avp(l)
+    got = obj.dump()
+    acc.case("mutate/%s/%s/r%d" % (kind, op, len(R.avp_data(l)) % 4))
+    if got != want:
+        off = first_diff(got, want)
+        acc.violation("avp-encoding-after-%s" % op, "%s after %s: dump() differs from the reference at offset %d: got %s want %s" % (
+            name, op, off, got.hex()[:120], want.hex()[:120]), {"spec": spec.describe(), "op": op, "got": got.hex(), "want": want.hex()})
+
+
 def check_header(acc, g):
     from bromelia.base import DiameterHeader
     f = g.header_fields()
@@ -168,8 +224,10 @@ def run_batch(b):
                 residue = i % 4 if row["type"] in ("OctetString", "UTF8String", "DiameterIdentity") else None
                 spec = g.avp(cls, residue=residue)
                 acc.case(spec.sig + "/d%d" % lavp_depth(spec.lavp))
-                if check_avp(acc, spec) is not None:
+                o = check_avp(acc, spec)
+                if o is not None:
                     ok += 1
+                    mutate_and_check(acc, g, spec, o)
                 if i == 0:
                     acc.sample({"avp": spec.describe()}, limit=2)
             per_class[cname] = ok
@@ -178,7 +236,9 @@ def run_batch(b):
         for i in range(b["n"]):
             spec = g.generic(residue=i % 4)
             acc.case(spec.sig)
-            check_avp(acc, spec)
+            o = check_avp(acc, spec)
+            if o is not None:
+                mutate_and_check(acc, g, spec, o)
         for i in range(b["n"] // 2):
             check_header(acc, g)
     elif b["kind"] == "deep":
@@ -227,7 +287,7 @@ def main(tier, seed):
                            "typed message classes are covered by C09 with the same oracle",
                            "in-domain values the library rejects with an exception are observed, not judged here (C10)"],
                           t0, extra_cov={"classes_covered": len(names) - len(zero), "classes_total": len(names)},
-                          require_counters=("avp_dumps", "header_dumps", "message_dumps"))
+                          require_counters=("avp_dumps", "header_dumps", "message_dumps", "post_construction_mutations"))
 
 
 def replay(w):
